@@ -19,6 +19,7 @@ pub fn reexec(e: &Value) -> (Value, bool) {
         "codec" => ids::codec_event(&cell_from_json(&e["cell"])),
         "decode" => ids::decode_event(from_quads(&e["id"])),
         "hexfmt" => ids::hexfmt_event(from_quads(&e["id"])),
+        "canonout" => ids::canonout_event(e["fn"].as_str().unwrap_or(""), from_quads(&e["id"]), i("r"), e["dflt"].as_bool().unwrap_or(false)),
         "hexparse" => {
             let s: String = e["str"].as_array().unwrap().iter().map(|c| { let c = c.as_u64().unwrap() as u32; if c == 255 { 'é' } else { char::from_u32(c).unwrap() } }).collect();
             ids::hexparse_event(&s)
